@@ -83,6 +83,12 @@ func (a *MultiClusterSubjectAccessReviewAuthorizer) Authorize(ctx context.Contex
 	if err != nil {
 		return a.decisionOnError, "", err
 	}
+	// The cluster this request will be dispatched to was resolved when the request arrived (WithUpstreamInfo).
+	// Server names are mutable: if the host has moved to another cluster in the meantime, that cluster's decision
+	// must not be applied to a request that is served by the first one.
+	if info.UpstreamCluster != nil && info.UpstreamCluster != cluster {
+		return a.decisionOnError, "", fmt.Errorf("host %q no longer belongs to cluster %q", host, info.UpstreamCluster.Cluster)
+	}
 
 	cacheKey := cacheKey{host: host, cluster: cluster}
 	c, loaded := a.caches.Load(cacheKey)
